@@ -18,7 +18,8 @@ RULE = ("cases: (N,C,H,W) x per-axis kernel/stride/dilation/padding built by con
         "{stride>1, dilation>1, padding>0, non-square kernel or image, windows do not tile the input}; "
         "distinct by hash of the whole case"
         " Also: return_indices/col_indices keywords, sides around 2^8 and 2^16, the (H, W) / [H, W] output form on all three col2im variants, views over length-1 axes (stride 0 / negative) and broadcast_to views."
-        " Round 5: channel and batch counts 255/256/257/300.")
+        " Round 5: channel and batch counts 255/256/257/300."
+        " Round 6: strides 41-161 whose multiples hit the last window exactly; int64 images near 2^58 (all variants exact).")
 ASSUMPTIONS = ["numpy integer-valued float arithmetic is exact below 2^24 (float32) / 2^53 (float64)",
                "the brute-force reference in synverif/ref_conv.py implements the torch.nn.Unfold/Fold definition"]
 
